@@ -17,6 +17,7 @@ import (
 	"github.com/trustbloc/sidetree-go/pkg/jws"
 	"github.com/trustbloc/sidetree-go/pkg/jwsutil"
 	"github.com/trustbloc/sidetree-go/pkg/util/signutil"
+	"github.com/trustbloc/sidetree-go/pkg/versions/1_0/client"
 
 	"verif/sim/core"
 	"verif/sim/ref"
@@ -572,6 +573,11 @@ func (w *World) execJWS(stepIdx int, st *Step) {
 		payload = ref.JCS(map[string]any{"v": genJSONValue(r, 1)})
 	}
 	signer := libSigner(key, key.Type.Alg(), kid)
+	if hv := toInt(st.Args["hdr"]); hv > 0 {
+		// further protected header members, typed as a Go caller passes them (after parsing they come back as generic JSON values)
+		signer = &headerSigner{Signer: signer, extra: jwsHeaderVariants[(hv-1)%len(jwsHeaderVariants)]}
+		w.T.Probe("jws_extra_protected_headers")
+	}
 	jwk, err := libJWK(key, "")
 	if err != nil {
 		w.violate("C15/jwk", key.Type.String(), "GetPublicKeyJWK: %v", err)
@@ -827,6 +833,20 @@ func (w *World) execJWK(stepIdx int, st *Step) {
 		mustReject("zero_prepended_"+member, edit(member, func(raw []byte) []byte { return append([]byte{0}, raw...) }))
 		mustReject("truncated_"+member, edit(member, func(raw []byte) []byte { return raw[:len(raw)-1] }))
 		mustReject("empty_"+member, edit(member, func(raw []byte) []byte { return nil }))
+		// the encoded text keeps its length but one character is one that lenient base64 decoders skip: fewer bytes come out
+		enc, _ := want[member].(string)
+		for _, pos := range []int{0, len(enc) / 2, len(enc) - 1} {
+			for _, c := range []byte{'\n', '\r'} {
+				if pos < 0 || pos >= len(enc) {
+					continue
+				}
+				m := ref.Clone(want).(map[string]any)
+				b := []byte(enc)
+				b[pos] = c
+				m[member] = string(b)
+				mustReject("line_break_in_"+member, m)
+			}
+		}
 	}
 	if key.Type != Ed25519 {
 		for _, crv := range []string{"P-256", "P-384", "P-521", "secp256k1"} {
@@ -841,4 +861,33 @@ func (w *World) execJWK(stepIdx int, st *Step) {
 		m["x"], m["y"] = m["y"], m["x"]
 		mustReject("coordinates_swapped", m)
 	}
+}
+
+// headerSigner is a library signer whose protected headers carry further members.
+type headerSigner struct {
+	client.Signer
+	extra map[string]any
+}
+
+func (h *headerSigner) Headers() jws.Headers {
+	out := jws.Headers{}
+	for k, v := range h.Signer.Headers() {
+		out[k] = v
+	}
+	for k, v := range h.extra {
+		out[k] = v
+	}
+	return out
+}
+
+// jwsHeaderVariants: registered header parameter names (RFC 7515 / RFC 7797) with values of the Go types a caller would use.
+// Only combinations every conforming verifier must accept (b64=false always listed in crit, no critical parameter that a
+// verifier may not understand) and only values that survive a JSON round trip unchanged (no numbers: see DESIGN section 10).
+var jwsHeaderVariants = []map[string]any{
+	{"typ": "JWT"},
+	{"b64": true},
+	{"b64": false, "crit": []string{"b64"}},
+	{"b64": false, "crit": []any{"b64"}},
+	{"b64": true, "crit": []string{"b64"}},
+	{"cty": "application/json", "x5c": []string{"AAAA"}, "jku": "https://example.com/keys"},
 }
